@@ -60,6 +60,13 @@ func allocFamilies() []allocFamily {
 				allocFamily{tag + "/preflight, long ACRM", c.cfg, dbg, func(n int) *http.Request {
 					return mk("OPTIONS", map[string][]string{"Origin": {"https://example.com"}, "Access-Control-Request-Method": {"PUT" + pad(n)}})
 				}},
+				allocFamily{tag + "/preflight, long ACRM with non-ASCII bytes", c.cfg, dbg, func(n int) *http.Request {
+					return mk("OPTIONS", map[string][]string{"Origin": {"https://example.com"}, "Access-Control-Request-Method": {"PUT" + strings.Repeat("\xc3\xa9\xff", n)}})
+				}},
+				allocFamily{tag + "/preflight, long ACRH name with non-ASCII bytes", c.cfg, dbg, func(n int) *http.Request {
+					return mk("OPTIONS", map[string][]string{"Origin": {"https://example.com"}, "Access-Control-Request-Method": {"PUT"},
+						"Access-Control-Request-Headers": {"x-bar,x-foo" + strings.Repeat("\xc3\xa9\xff", n)}})
+				}},
 				allocFamily{tag + "/preflight, long ACRH name", c.cfg, dbg, func(n int) *http.Request {
 					return mk("OPTIONS", map[string][]string{"Origin": {"https://example.com"}, "Access-Control-Request-Method": {"PUT"},
 						"Access-Control-Request-Headers": {"x-bar,x-foo" + pad(n)}})
